@@ -11,6 +11,10 @@ import (
 
 func init() {
 	register("C10", "exploration", c10.Run)
+	for _, f := range []string{"docx", "xlsx", "epub", "html"} {
+		f := f
+		c10.ExtraGoodFiles = append(c10.ExtraGoodFiles, func(r *rand.Rand) ([]byte, string) { return samples.Make(f, r).Data, f })
+	}
 	// corrupt-but-plausible packages: a valid document whose main part is damaged
 	for _, f := range []string{"docx", "odt", "xlsx", "pptx", "epub"} {
 		f := f
